@@ -178,12 +178,14 @@ class Job:
        kind       'proof' | 'bounded' ; bound = text
        canaries   names of canary assertions that must FAIL (reachability of outcomes)
        checks     extra cbmc flags
+       plain      bounded stand-in WITHOUT contract instrumentation: the harness calls the real function and asserts
+                  the clauses itself (__CPROVER_assert(e, "clause:<name>")); always kind='bounded', never counted as proof
     """
     def __init__(self, name, prop, tus, harness, enforce=None, replace=(), defines=(), tu_defines=(),
                  entry='harness', unwind=8, kind='proof', bound=None, canaries=(), checks=(),
                  extra_src=(), timeout=300, mem_gb=8, rfp=False, replay=None, function_label=None,
                  loop_contracts=False, solver=(), arbiter=None, include_tus=None, loops=None, unwindset=(), nondet_static=False, object_bits=10, assumptions=(),
-                 no_default=(), enforce_rec=False):
+                 no_default=(), enforce_rec=False, plain=False):
         self.__dict__.update(locals())
         del self.__dict__['self']
 
@@ -254,6 +256,10 @@ def _run_job(ws, job, r, extra_defines, want_trace):
     if rc != 0:
         raise Infra('harness compile/link failed: ' + (se + so)[-1500:])
     b = base + '_b.gb'
+    if job.plain:
+        if job.kind == 'proof' or job.enforce or job.replace:
+            raise Infra('plain job must be bounded and name no contract')
+        shutil.copy(a, b)
     cmd = ['goto-instrument']
     if job.rfp:
         cmd += ['--remove-function-pointers']
@@ -271,13 +277,16 @@ def _run_job(ws, job, r, extra_defines, want_trace):
     elif job.loop_contracts:
         cmd += ['--apply-loop-contracts']
     cmd += [a, b]
-    rc, so, se, dt = sh(cmd, 900, mem_gb=job.mem_gb)
+    if job.plain:
+        rc, so, se, dt = 0, '', '', 0.0
+    else:
+        rc, so, se, dt = sh(cmd, 900, mem_gb=job.mem_gb)
+        r.cmds.append(' '.join(cmd))
     r.secs['instrument'] = round(dt, 2)
-    r.cmds.append(' '.join(cmd))
     if rc != 0 or not os.path.exists(b):
         raise Infra('goto-instrument failed: ' + (se + so)[-1500:])
     checks = [c for c in DEFAULT_CHECKS if c not in job.no_default] + list(job.checks)
-    cmd = ['cbmc', b, '--json-ui', '--unwind', str(job.unwind)] + checks + (list(job.solver) or DEFAULT_SOLVER)
+    cmd = ['cbmc', b, '--json-ui', '--unwind', str(job.unwind)] + (['--function', job.entry] if job.plain else []) + checks + (list(job.solver) or DEFAULT_SOLVER)
     if job.object_bits:
         cmd += ['--object-bits', str(job.object_bits)]
     for us in job.unwindset:
@@ -343,6 +352,8 @@ def _run_job(ws, job, r, extra_defines, want_trace):
         if desc.startswith('canary:'):
             canary_seen[desc[7:]] = x['status']
             continue
+        if desc.startswith('clause:'):
+            nm, cls = desc[7:], 'clause'
         ob = {'id': x['property'], 'name': nm or desc[:100], 'class': cls, 'status': x['status'],
               'file': f, 'line': loc.get('line'), 'function': loc.get('function')}
         if x['status'] == 'FAILURE' and FILTER_STRICT.search(desc):
@@ -365,6 +376,8 @@ def _run_job(ws, job, r, extra_defines, want_trace):
         raise Infra('unwind bound %d too small: %s in %s line %s' % (job.unwind, uw[0]['name'], uw[0].get('function'), uw[0].get('line')))
     if not r.obligations:
         raise Infra('zero obligations generated')
+    if job.plain and not any(o['class'] == 'clause' for o in r.obligations):
+        raise Infra('no clause obligation generated by plain harness')
     if job.enforce and not any(o['class'] == 'postcondition' for o in r.obligations):
         raise Infra('no postcondition obligation generated for %s (contract not attached?)' % job.enforce)
     if unknown and not r.failures:
